@@ -158,6 +158,7 @@ def gen(seed, index, tier):
     additions = []
     hidden = set()
     caphidden = set()
+    comment_sep = False
     addn = 0
     for nm in targets:
         r = rng.random()
@@ -194,8 +195,35 @@ def gen(seed, index, tier):
                               % (title, path, ("Numb=%d\n" % rng.randrange(0, 3)) if rng.random() < 0.5 else ""))
             additions.append(path)
         rng.shuffle(blocks[lf])
-        spec.append({"p": pre + lf, "k": "file", "d": "\n".join(blocks[lf])})
+        # blocks are separated by a blank line or, as in UMN gopherd, by a comment line after the block's Path=
+        body = ""
+        for bi_, blk in enumerate(blocks[lf]):
+            if bi_:
+                body += rng.choice(["\n", "\n", "# next entry\n", "#\n", "\n# and another\n"])
+                if body.endswith("entry\n") or body.endswith("#\n"):
+                    comment_sep = True
+            body += blk
+        spec.append({"p": pre + lf, "k": "file", "d": body})
     links = list(lfnames)
+    swap = None
+    if rng.random() < 0.2 and handlers != "plaindir":
+        # a link file that is replaced, after a first listing, by content of the same length with the same
+        # modification time (cp -p, rsync -t, an edit within the same second): what counts is what it says now
+        a, b = rng.sample(["swapA.txt", "swapB.txt", "swapC.txt"], 2)
+        for nm in ("swapA.txt", "swapB.txt", "swapC.txt"):
+            spec.append({"p": pre + nm, "k": "file", "d": "content of %s\n" % nm})
+            kinds[nm] = "file"
+        names = sorted(set(names) | {"swapA.txt", "swapB.txt", "swapC.txt"})
+        how = rng.choice(["linkfile", "linkfile", "cap"])
+        if how == "linkfile":
+            swap = {"p": pre + ".zswap", "before": "Path=./%s\nType=X\n" % a, "after": "Path=./%s\nType=X\n" % b}
+            spec.append({"p": pre + ".zswap", "k": "file", "d": swap["before"]})
+            hidden.add(b)
+            links.append(".zswap")
+        else:
+            swap = {"p": pre + ".cap/" + b, "before": "Name=Shown\n", "after": "Type=X    \n"}
+            spec.append({"p": pre + ".cap/" + b, "k": "file", "d": swap["before"]})
+            caphidden.add(b)
     return {
         "spec": spec, "dir": dname, "names": names, "kinds": kinds,
         "linkfiles": links, "additions": additions,
@@ -203,6 +231,7 @@ def gen(seed, index, tier):
         "handlers": handlers,
         "proto": rng.choice(["gopher", "gopher", "http", "gopher$", "gemini", "spartan", "wap", "gopher+"]),
         "K": 4 if tier == "quick" else 10,
+        "swap": swap, "comment_sep": comment_sep,
         "servertype": rng.choice(["ThreadingTCPServer", "ForkingTCPServer"]),
         "sched_seed": rng.randrange(1 << 30),
     }
@@ -244,6 +273,19 @@ def execute(sc, tape=None):
                     orders.append(tuple(names))
 
             run.fs.on_listdir = hook
+            if sc.get("comment_sep"):
+                counters["blocks_separated_by_comment"] = 1
+            if sc.get("swap"):
+                # first listing with the old content, then the replacement (same length, same mtime)
+                sw = sc["swap"]
+                c = run.client(req, tls=tls)
+                run.go()
+                swp = os.path.join(root, sw["p"])
+                st_ = simfs.real_stat(swp)
+                assert len(sw["before"]) == len(sw["after"])
+                simfs.write_file(swp, sw["after"].encode(), st_.st_mtime)
+                del orders[:]
+                counters["link_file_replaced_same_size_same_mtime"] = 1
             for j in range(K):
                 run.fs.epoch = j
                 if nperm:
